@@ -231,6 +231,8 @@ namespace sim
     bool                    elog_overflow;
     std::vector<alloc_call> allocs;   // allocate() calls of the op in flight
     std::vector<int>        cd_ids;   // ids of the allocators whose construct()/destroy() ran in it
+    struct cd_event { const void *p; int id; bool destroy; };
+    std::vector<cd_event>   cd_events; // every construct()/destroy() call of the op: where, by whom
     unsigned                deallocs;
 
     // --- violations of the step in flight (the first one decides minimisation; the others are
@@ -398,11 +400,19 @@ namespace sim
   }
 
   inline void
-  note_construct_destroy_id (int id) noexcept
+  note_construct_destroy_id (int id, const void *p = 0, bool destroy = false) noexcept
   {
     state& g = G ();
     if (! g.in_op)
       return;
+    if (g.cd_events.size () < 4096)
+    {
+      state::cd_event e;
+      e.p       = p;
+      e.id      = id;
+      e.destroy = destroy;
+      g.cd_events.push_back (e);
+    }
     for (std::size_t i = 0; i < g.cd_ids.size (); ++i)
       if (g.cd_ids[i] == id)
         return;
@@ -455,6 +465,7 @@ namespace sim
     g.elog_overflow = false;
     g.allocs.clear ();
     g.cd_ids.clear ();
+    g.cd_events.clear ();
     g.deallocs      = 0;
     g.count_mask2   = count_mask2;
     g.had_plan = (0 <= f.k && f.mask != 0);
